@@ -465,6 +465,254 @@ def fromFile (c : Codec) (isGz : GzPred) (scan : MScan) (name data : Bytes) : Op
 def NonEmptyI (w : World) : Prop :=
   ∀ r ∈ w.universe, ∀ e l v, r.key = Key.int e l v → 0 < r.rows
 
+/-! ### Phase 4: the member scan of `_drop_torn_tail` as it is written (chunked reads, `unused_data` arithmetic)
+
+```
+good,member = 0,zlib.decompressobj(31)
+for chunk in iter(lambda: f.read(4096), b''):
+    try: member.decompress(chunk)
+    except zlib.error: break
+    if member.eof:
+        good = f.tell()-len(member.unused_data)
+        f.seek(good)
+        member = zlib.decompressobj(31)
+f.truncate(good)
+```
+A `decompressobj` is abstract: what it reports is a function of ALL bytes fed to it since it was created (zlib's streaming
+contract, trusted): `eof` after the first `n` of them (the rest is `unused_data`), `more` input needed, or `zlib.error`. -/
+
+inductive Feed where
+  /-- `member.eof`: the member is complete after `n` of the bytes fed; `payload` is what it decompressed to -/
+  | eof (payload : Bytes) (n : Nat)
+  /-- no error, not at the end of the member yet -/
+  | more
+  /-- `zlib.error` -/
+  | error
+  deriving DecidableEq, Repr
+
+abbrev ZScan := Bytes → Feed
+
+/-- the one-shot scanner of the abstract member split that belongs to a streaming decompressor -/
+def toMScan (z : ZScan) : MScan := fun b =>
+  match z b with
+  | .eof p n => some (p, n)
+  | _ => none
+
+/-- the loop; state = (`good`, file position `pos`); the decompressor was created at offset `good` and has been fed
+`data[good:pos]`.  The guard on `good'` can not fail for a decompressor that satisfies `ZLaws` (case 5 of `chunkLoop_eq`);
+it is there to make the definition total for arbitrary `z`. -/
+def chunkLoop (z : ZScan) (c : Nat) (data : Bytes) (good pos : Nat) : Nat :=
+  let chunk := (data.drop pos).take c                      -- f.read(c)
+  if hch : chunk.isEmpty then good                         -- sentinel b'' ; then f.truncate(good)
+  else
+    let tell := pos + chunk.length                         -- f.tell() after the read
+    let fed := (data.drop good).take (tell - good)         -- everything `member` has been fed
+    match z fed with
+    | .error => good                                       -- except zlib.error: break
+    | .more => chunkLoop z c data good tell
+    | .eof _ n =>
+      let unused := fed.drop n                             -- member.unused_data
+      let good' := tell - unused.length                    -- good = f.tell()-len(member.unused_data)
+      if good < good' ∧ good' ≤ tell then chunkLoop z c data good' good'   -- f.seek(good); new decompressobj
+      else good
+termination_by (data.length - good, data.length - pos)
+decreasing_by
+  · have h1 : chunk.length ≤ data.length - pos := by
+      show ((data.drop pos).take c).length ≤ _
+      rw [List.length_take, List.length_drop]; exact Nat.min_le_right _ _
+    have h2 : 0 < chunk.length := List.length_pos_iff.mpr (fun e => hch (by rw [e]; rfl))
+    apply Prod.Lex.right
+    show data.length - (pos + chunk.length) < data.length - pos
+    omega
+  · rename_i hg
+    have h1 : chunk.length ≤ data.length - pos := by
+      show ((data.drop pos).take c).length ≤ _
+      rw [List.length_take, List.length_drop]; exact Nat.min_le_right _ _
+    have h2 : 0 < chunk.length := List.length_pos_iff.mpr (fun e => hch (by rw [e]; rfl))
+    apply Prod.Lex.left
+    show data.length - good' < data.length - good
+    have : tell = pos + chunk.length := rfl
+    omega
+
+/-- `_drop_torn_tail`, gz branch, with read size `c`: the size the file is truncated to -/
+def chunkScan (z : ZScan) (c : Nat) (data : Bytes) : Nat := chunkLoop z c data 0 0
+
+/-- what the loop needs from zlib: once a member is complete after `n` bytes, it stays so whatever follows, `n` is positive
+and within what was fed, and before the `n`-th byte the decompressor asks for more (no error, no early end) -/
+structure ZLaws (z : ZScan) : Prop where
+  eof_pos : ∀ b p n, z b = .eof p n → 0 < n ∧ n ≤ b.length
+  eof_ext : ∀ b p n, z b = .eof p n → ∀ rest, z (b.take n ++ rest) = .eof p n
+  eof_more : ∀ b p n, z b = .eof p n → ∀ k, k < n → z (b.take k) = .more
+
+/-- the concrete streaming decompressor of the driver: complete table member at the front → `eof`; a proper prefix of a
+table member → `more`; anything else → `error` -/
+def tableZ (tbl : List Member) : ZScan := fun data =>
+  match tableScan tbl data with
+  | some (p, n) => .eof p n
+  | none => if tbl.any (fun m => data.isPrefixOf m.bytes) then .more else .error
+
+/-! ### Phase 4: the shape test of `Experiment.run` against a restored log
+
+```
+n_given_lrns = len(set([l for _,l,_ in self._triples])); n_given_envs = len(set([e for e,_,_ in self._triples]))
+lrn_mismatch = restored and n_given_lrns != restored.experiment.get('n_learners',n_given_lrns)
+env_mismatch = restored and n_given_envs != restored.experiment.get('n_environments',n_given_envs)
+if lrn_mismatch or env_mismatch: raise CobaException("The experiment does not match the given logs")
+```
+The exception is raised inside the `try` of `run`: it is logged, nothing is evaluated or written, and the file is read back. -/
+
+/-- `len(set(xs))` -/
+def nDistinct : List Nat → Nat
+  | [] => 0
+  | x :: xs => if xs.contains x then nDistinct xs else nDistinct xs + 1
+
+/-- (`n_learners`, `n_environments`) of an experiment -/
+def givenShape (triples : List (Nat × Nat × Nat)) : Nat × Nat :=
+  (nDistinct (triples.map (fun t => t.2.1)), nDistinct (triples.map (fun t => t.1)))
+
+/-- `restored.experiment`: the experiment line that counts is the last one (`dict.update`); `shapeOf` reads
+(`n_learners`, `n_environments`) from its text, each `none` when the key is missing (`.get(key, given)`) -/
+def restoredShape (shapeOf : Rec → Option Nat × Option Nat) (K : List Rec) : Option Nat × Option Nat :=
+  match (K.filter (fun r => decide (r.key = Key.exp))).getLast? with
+  | some r => shapeOf r
+  | none => (none, none)
+
+/-- `lrn_mismatch or env_mismatch`; nothing restored (`restored` is None) never mismatches -/
+def shapeMismatch (shapeOf : Rec → Option Nat × Option Nat) (given : Nat × Nat) (K : List Rec) : Bool :=
+  !K.isEmpty &&
+    ((match (restoredShape shapeOf K).1 with | some n => decide (n ≠ given.1) | none => false) ||
+     (match (restoredShape shapeOf K).2 with | some n => decide (n ≠ given.2) | none => false))
+
+/-- `run` with the shape test: on a mismatch the pipeline is not run (no task, no record; the exception is logged) and the
+file is read back as it is after the repair step -/
+def resumeChecked (fl : Flags) (w : World) (shapeOf : Rec → Option Nat × Option Nat) (given : Nat × Nat)
+    (file : Option Bytes) : Option (Bool × Outcome) :=
+  match restore fl w.c file with
+  | none => none
+  | some R =>
+    if shapeMismatch shapeOf given R.K then
+      some (true, { restored := R, tasks := [], appended := [], file := R.file1, final := decodeAll w.c R.file1 })
+    else
+      let tasks := makeTasks fl.finishedFix R.K w.triples
+      some (false, finish w.c R tasks (preamble fl w.ver w.exp R.K) (tasks.filterMap w.out))
+
+/-! ### Phase 4: ChunkTasks / ProcessTasks — the order in which a single-process run executes the tasks
+
+`ChunkTasks._chunks`: tasks without environment first (one chunk each, in order), then the tasks of environments that are not
+chunk()ed (one chunk each, in order), then the groups of tasks that share a `Chunk` pipe (dict in insertion order), the groups
+sorted by `min(env_id)`, each group sorted by `(env_id, lrn_id or -1)` and cut into batches of `max_tasks`.
+`ProcessTasks.filter`: `sorted(chunk, key=(env_id or -1, lrn_id or -1), reverse=True)` and `chunk.pop()` from the end, i.e.
+ascending with ties (same environment and learner, different evaluators) in REVERSE order.
+For the property only `runOrder_perm` matters (the theorems hold for every arrival order); the order itself is compared with the
+real record order of single-process runs. -/
+
+/-- sort key of ChunkTasks (`chunk_sorter`) and ProcessTasks: `(env_id or -1, lrn_id or -1)`, shifted by one -/
+def Task.ord : Task → Nat × Nat
+  | .penv i => (i + 1, 0)
+  | .plrn i => (0, i + 1)
+  | .pval _ => (0, 0)
+  | .eval e l _ => (e + 1, l + 1)
+
+def ordLt (a b : Nat × Nat) : Bool := a.1 < b.1 || (a.1 == b.1 && a.2 < b.2)
+
+/-- the environment id of a task that has an environment -/
+def Task.envId : Task → Option Nat
+  | .penv i => some i
+  | .eval e _ _ => some e
+  | _ => none
+
+/-- stable insertion (`sorted` is stable): `t` goes in front of the first element that is not smaller -/
+def insertOrd (lt : Task → Task → Bool) (t : Task) : List Task → List Task
+  | [] => [t]
+  | u :: us => if lt u t then u :: insertOrd lt t us else t :: u :: us
+
+/-- `sorted(tasks, key=…)` -/
+def sortOrd (lt : Task → Task → Bool) : List Task → List Task
+  | [] => []
+  | t :: ts => insertOrd lt t (sortOrd lt ts)
+
+/-- the tasks that do not belong to group `k` -/
+def dropGroup (ck : Task → Nat) (k : Nat) (l : List Task) : List Task := l.filter (fun u => !(ck u == k))
+
+theorem dropGroup_length (ck : Task → Nat) (k : Nat) (l : List Task) : (dropGroup ck k l).length ≤ l.length :=
+  List.length_filter_le _ _
+
+/-- dict of lists in insertion order: the group of the first task, then the groups of the rest -/
+def groupsOf (ck : Task → Nat) : List Task → List (List Task)
+  | [] => []
+  | t :: ts => ((t :: ts).filter (fun u => ck u == ck t)) :: groupsOf ck (dropGroup ck (ck t) ts)
+termination_by l => l.length
+decreasing_by
+  simp only [List.length_cons]
+  exact Nat.lt_succ_of_le (dropGroup_length _ _ _)
+
+/-- `_max_chunker`: batches of `m` tasks (`m = 0`: `max_tasks or None`, one batch) -/
+def batches (m : Nat) (l : List Task) : List (List Task) :=
+  if m = 0 then (if l.isEmpty then [] else [l]) else go m l l.length
+where
+  go (m : Nat) (l : List Task) : Nat → List (List Task)
+    | 0 => []
+    | f + 1 => if l.isEmpty then [] else l.take m :: go m (l.drop m) f
+
+/-- insertion sort of the groups by `min(env_id)` (stable) -/
+def insertGrp (key : List Task → Nat) (g : List Task) : List (List Task) → List (List Task)
+  | [] => [g]
+  | h :: hs => if key h < key g then h :: insertGrp key g hs else g :: h :: hs
+
+def sortGrp (key : List Task → Nat) : List (List Task) → List (List Task)
+  | [] => []
+  | g :: gs => insertGrp key g (sortGrp key gs)
+
+def minEnv (g : List Task) : Nat := (g.filterMap Task.envId).foldl min ((g.filterMap Task.envId).headD 0)
+
+/-- `ChunkTasks._chunks`: `chunkOf e` = the Chunk pipe of environment `e` (`none`: `'not_chunked'`) -/
+def chunkTasks (chunkOf : Nat → Option Nat) (m : Nat) (tasks : List Task) : List (List Task) :=
+  let sans := tasks.filter (fun t => t.envId.isNone)
+  let withE := tasks.filter (fun t => t.envId.isSome)
+  let ck : Task → Option Nat := fun t => t.envId.bind chunkOf
+  let notChunked := withE.filter (fun t => (ck t).isNone)
+  let chunked := withE.filter (fun t => (ck t).isSome)
+  let groups := groupsOf (fun t => (ck t).getD 0) chunked
+  let lt := fun a b => ordLt a.ord b.ord
+  sans.map (fun t => [t]) ++ (notChunked.map (fun t => [t]) ++
+    (sortGrp minEnv groups).flatMap (fun g => batches m (sortOrd lt g)))
+
+/-- `ProcessTasks.filter`: `sorted(chunk, key, reverse=True)` then `pop()` from the end: ascending, ties in REVERSE order -/
+def processOrder (chunk : List Task) : List Task := sortOrd (fun a b => ordLt a.ord b.ord) chunk.reverse
+
+/-- the order in which a single-process run executes the tasks (and writes their records) -/
+def runOrder (chunkOf : Nat → Option Nat) (m : Nat) (tasks : List Task) : List Task :=
+  (chunkTasks chunkOf m tasks).flatMap processOrder
+
+
+/-! ### Phase 4: universal newlines
+
+DiskSource opens the file in text mode with the default `newline=None`: on reading, `\r\n` and a lone `\r` are both turned into
+`\n`, so a raw `\r` inside a record text would end a line.  (`json.dumps` escapes it; `_drop_torn_tail` works on the bytes.) -/
+
+/-- `"\r"` -/
+def CR : Nat := 13
+
+/-- text-mode reading with universal newlines (`open(path)` / `gzip.open(path,'rt')`, `newline=None`): `\r\n` and a lone `\r`
+both arrive as `\n` -/
+def univAux : Bool → Bytes → Bytes
+  | _, [] => []
+  | prevCR, b :: bs =>
+    if b = CR then NL :: univAux true bs
+    else if b = NL ∧ prevCR = true then univAux false bs
+    else b :: univAux false bs
+
+def univ (file : Bytes) : Bytes := univAux false file
+
+/-- what TransactionDecode really sees: the lines of the translated text -/
+def linesU (file : Bytes) : List Bytes := lines (univ file)
+
+def decodeAllU (c : Codec) (file : Bytes) : Option (List Rec) :=
+  match decodeLines c (linesU file) with
+  | some (r :: rs) => if r.key = Key.ver then some (r :: rs) else none
+  | _ => none
+
+
 /-! ### the concrete codec of the driver: a table of (record, text) pairs -/
 
 def tableEnc (tbl : List (Rec × Bytes)) (r : Rec) : Bytes :=
